@@ -121,8 +121,11 @@ def _rclasses(rng, seed):
 N_RCLASS = len(_rclasses(__import__('random').Random(0), 0))
 
 
+N_CASES = {'quick': 24000, 'thorough': 600000}
+
+
 def gen_cases(tier, verif_seed):
-    n = {'quick': 24000, 'thorough': 600000}[tier]
+    n = N_CASES[tier]
     for i in range(n):
         yield make_case(verif_seed, i)
 
